@@ -1,5 +1,6 @@
 import PqModel.Spec.Inflate
 import PqModel.Spec.InflateTests
+import PqModel.Spec.InflateFixed
 
 /-! # C20, gzip part — a DEFLATE / gzip reader written from RFC 1951 / RFC 1952 (SPEC side)
 
@@ -14,9 +15,14 @@ out by the entry points is never exhausted, for any bytes; it inverts the stored
 EVERY segmentation into blocks and stops exactly behind the final block; a gzip member around
 stored blocks is read back through header, CRC-32 and ISIZE.
 
+Of the Huffman paths, the LITERAL path on the fixed table is proved too: `inflate` inverts the
+reference encoder that writes every byte with the code RFC 1951 §3.2.2/§3.2.6 assigns to it
+(`inflate_fixedLiterals_id`; bit order of codes, canonical walk, symbol loop, end-of-block).
+
 -- OPEN (tested, not proved): `∀ stream produced by a conformant Huffman/LZ77 encoder,
--- inflate stream = the encoder's input`; there is no Lean Huffman ENCODER to state it against.
--- Evidence instead: `walkAgrees_fixedLit` / `walkAgrees_fixedDist` (the canonical-code walk
+-- inflate stream = the encoder's input` — length/distance symbols (matches, incl. overlapping
+-- ones) and the dynamic-table header (code-length code, repeat codes) have no Lean encoder to be
+-- stated against. Evidence instead: `walkAgrees_fixedLit` / `walkAgrees_fixedDist` (the canonical-code walk
 -- decodes every code of RFC 1951 §3.2.2's explicit assignment on the two fixed tables, by kernel
 -- evaluation), the `decide` vectors of `InflateTests.lean` (streams of Go's stdlib: fixed block
 -- with overlapping match, dynamic block, gzip header options; rejected: CRC, ISIZE, reserved
@@ -67,6 +73,16 @@ theorem gunzip_gzipStored_id (bs : List UInt8) : gunzip (gzipStored bs) = .ok bs
 example : gzipStored [104, 105] =
     [31, 139, 8, 0, 0, 0, 0, 0, 0, 255, 1, 2, 0, 253, 255, 104, 105, 172, 42, 147, 216, 2, 0, 0, 0] := by
   decide +kernel
+
+/-- Fixed-Huffman block, literals only (`fixedLiterals`: BFINAL=1, BTYPE=01, for every byte the
+code `rfcCode fixedLitLens` gives it — 8 bits for 0..143, 9 bits for 144..255 —, the 7-bit
+end-of-block code, zero padding): `inflate` returns the input, for EVERY byte string. The only
+evaluated ingredient is `fixedCheck_ok` (the 257 codes, once, in the kernel); the rest is
+induction over the input. -/
+theorem inflate_fixedLiterals_id (bs : List UInt8) : inflate (fixedLiterals bs) = .ok bs :=
+  inflate_fixedLiterals bs
+
+example : fixedLiterals [104, 105, 200] = [203, 200, 60, 1, 0] := by decide +kernel
 
 /-- TESTED by kernel evaluation, finite: on the fixed literal/length table (288 symbols) and the
 fixed distance table the bit-by-bit walk `decodeSym` decodes every code of the explicit
